@@ -225,3 +225,4 @@ A(V("c10-default-unmapped", "C10", "designspaceLib/__init__.py", "axis.map_forwa
 A(V("c07-markfilter-not-renumbered", "C07", SUB, "            self.MarkFilteringSet = s.used_mark_sets.index(self.MarkFilteringSet)", "            pass", "REMAP-IDX"))
 A(V("c07-palette-not-renumbered", "C07", SUB, "                record.PaletteIndex = new_index", "                pass", "REMAP-IDX"))
 A(V("c20-ebdt-unsanitised", "C20", "ttLib/tables/E_B_D_T_.py", "    filename = userNameToFileName(glyphName, suffix=bitmapObject.fileExtension)", "    filename = glyphName + bitmapObject.fileExtension", "F15"))
+A(V("c08-swap-hv-metrics", "C08", INS, "        _instantiateGvarGlyph(\n            glyphname, glyf, gvar, hMetrics, vMetrics, axisLimits, optimize=optimize\n        )", "        _instantiateGvarGlyph(\n            glyphname, glyf, gvar, vMetrics, hMetrics, axisLimits, optimize=optimize\n        )", "F21"))
